@@ -51,5 +51,18 @@ def artboardKeys : List String := ["ARTBOARD_DATA1", "ARTBOARD_DATA2", "ARTBOARD
 def sectionDivider : List (String × Nat) := [("OTHER", 0), ("OPEN_FOLDER", 1), ("CLOSED_FOLDER", 2), ("BOUNDING_SECTION_DIVIDER", 3)]
 /-- the record list is iterated in file order (`reversed(...)` absent) -/
 def iteratesReversed : Bool := false
+/-- the expression the record loop of `_init` iterates over -/
+def loopSource : String := "self._record._iter_layers()"
+
+/-- the dispatch closure: the body of the record loop of `_init` and every function / method of psd_image.py it
+    calls (transitively): the functions followed, … -/
+def dispatchFunctions : List String := []
+/-- … the `<record>.flags.<name>` attributes it reads, … -/
+def dispatchFlags : List String := ["pixel_data_irrelevant"]
+/-- … the `Tag.<X>` names it consults (sorted), … -/
+def dispatchTags : List String := ["ARTBOARD_DATA1", "ARTBOARD_DATA2", "ARTBOARD_DATA3", "NESTED_SECTION_DIVIDER_SETTING", "PLACED_LAYER1", "PLACED_LAYER2", "SECTION_DIVIDER_SETTING", "SMART_OBJECT_LAYER_DATA1", "SMART_OBJECT_LAYER_DATA2", "TYPE_TOOL_INFO", "TYPE_TOOL_OBJECT_SETTING", "VECTOR_MASK_SETTING1", "VECTOR_MASK_SETTING2", "VECTOR_ORIGINATION_DATA", "VECTOR_STROKE_CONTENT_DATA", "VECTOR_STROKE_DATA"]
+/-- … and the module-level / class-level mutable containers, `global` names and memoising decorators it touches:
+    anything here can make the kind of a record depend on records seen before -/
+def dispatchState : List String := []
 
 end PsdVerif.Generated.TreeKinds
